@@ -17,6 +17,7 @@
 
 struct fmpi_msg {
 	int used, src_rank, src_thread, dest, tag, size;
+	int hold; /* polls of the destination rank during which the message stays invisible */
 	uint64_t seq;
 	const void *userbuf;
 	unsigned char *data;
@@ -81,6 +82,7 @@ static int do_send(const void *buf, int count, int dest, int tag)
 			m->tag = tag;
 			m->size = count;
 			m->seq = ++sendseq;
+			m->hold = 0;
 			m->userbuf = buf;
 			m->data = malloc((size_t)count + 1);
 			memcpy(m->data, buf, (size_t)count);
@@ -131,6 +133,8 @@ static int candidates(int rank, int tag, int source, struct fmpi_msg **out)
 			if(pend[j].used && pend[j].dest == rank && pend[j].tag == tag && pend[j].src_thread == m->src_thread &&
 			    pend[j].seq < m->seq)
 				head = 0;
+		if(head && m->hold > 0)
+			continue; /* held back: the whole channel waits (non-overtaking) */
 		if(head && n < 16)
 			out[n++] = m;
 	}
@@ -149,14 +153,26 @@ int MPI_Improbe(int source, int tag, MPI_Comm c, int *flag, MPI_Message *msg, MP
 	(void)c;
 	int rank = rs_rank();
 	struct fmpi_msg *cand[16];
+	/* every poll of this rank brings held messages one step closer to visibility */
+	for(int i = 0; i < MAXPEND; ++i)
+		if(pend[i].used == 1 && pend[i].dest == rank && pend[i].tag == tag && pend[i].hold > 0)
+			if(--pend[i].hold == 0)
+				rs_effect();
 	int n = candidates(rank, tag, source, cand);
 	if(!n) {
 		*flag = 0;
 		rs_env_load(&mailbox_version[rank], 8, "MPI_Improbe");
 		return 0;
 	}
-	/* 0: oldest; 1..n-1: the head of another sender's channel first; n: nothing visible yet */
-	int ch = rs_choose(n + 1, "MPI_Improbe");
+	/* 0: oldest; 1..n-1: the head of another sender's channel first; n: nothing visible at this poll;
+	 * n+1: the oldest message stays invisible for 16 further polls of this rank, or until every thread is parked
+	 * (a long but finite delay) */
+	int ch = rs_choose(n + 2, "MPI_Improbe");
+	if(ch > n) {
+		cand[0]->hold = 16;
+		rs_count(43, 1);
+		ch = n;
+	}
 	if(ch == n) {
 		static volatile uint64_t invisible_ctr;
 		*flag = 0;
@@ -208,6 +224,19 @@ int MPI_Mrecv(void *buf, int count, MPI_Datatype dt, MPI_Message *msg, MPI_Statu
 	m->used = 0;
 	rs_effect();
 	return 0;
+}
+
+/* called by the scheduler when every thread is parked: whatever is still held back becomes visible now */
+int fmpi_release_held(void)
+{
+	int any = 0;
+	for(int i = 0; i < MAXPEND; ++i)
+		if(pend[i].used == 1 && pend[i].hold > 0) {
+			pend[i].hold = 0;
+			mailbox_version[pend[i].dest]++;
+			any = 1;
+		}
+	return any;
 }
 
 int fmpi_in_flight(void)
